@@ -109,9 +109,12 @@ Proof.
 Qed.
 Print Assumptions C13_commit_publishes_replay.
 
-(* ISOLATION.  In every reachable state the only operation that changes running, startup, the startup
-   file, the version files or the version list is a Commit that returns ok, and the only operation that
-   touches the routing daemon is a Commit. *)
+(* ISOLATION.  In every reachable state, among the northbound operations of the model (Create, Close, Delete,
+   Set, Commit, Rollback-to-version, time) the only one that changes running, startup, the startup file, the
+   version files or the version list is a Commit that returns ok, and the only one that touches the routing
+   daemon is a Commit.  Exported methods that are NOT operations of the model and do change such state
+   without a commit: SaveStartup, ReloadFRR, ResetForRecovery, LoadFromDataplane, LoadVersions (and the
+   start-up path, which is modelled as [OBoot] but is not [plain]). *)
 Theorem C13_isolation :
   forall var reg g r shared ops o st' res evs, fixed var -> forallb plain ops = true -> plain o = true ->
   let st := run var reg g (init_state_gen r shared) ops in
